@@ -57,3 +57,34 @@ Example C11_nonvacuous :
   map (fun t => (tid t, option_map v_state (sto t), started t)) (ts (run ops))
   = [("t1", Some SRunning, 1%Z); ("t2", Some SPaused, 0%Z)].
 Proof. vm_compute. reflexivity. Qed.
+
+(* ---- crash points and reload: API calls cut by a crash after n writes of the task record, restarts with the real
+   ReloadTask (model: C11/Reload.v, cases of harness h_c11r checked by C11.LCheck) ---- *)
+Require Verif.C11.Reload Verif.C11.ReloadProofs Verif.C11.LCheck Verif.C11.LCheckProofs.
+
+(* for every history of creates, pauses and resumes each cut by a crash before, between or after its writes of the task
+   record, deletes and restarts: in a live process the persisted state and the in-memory state of the task agree and are
+   never Initial *)
+Theorem C11_reload_every_history : forall ls,
+  let s := Reload.run Reload.cfg_now Reload.init ls in
+  Reload.dead s = false -> Reload.stored s = Reload.mem s /\ Reload.stored s <> Some Reload.SInitial.
+Proof. exact ReloadProofs.reload_every_history. Qed.
+Print Assumptions C11_reload_every_history.
+
+(* after a restart every persisted task runs, whatever state the crash left in the store *)
+Theorem C11_restart_runs : forall s x, Reload.stored s = Some x ->
+  let s' := Reload.step Reload.cfg_now s Reload.LRestart in
+  Reload.stored s' = Some Reload.SRunning /\ Reload.mem s' = Some Reload.SRunning /\ Reload.dead s' = false.
+Proof. exact ReloadProofs.restart_runs. Qed.
+Print Assumptions C11_restart_runs.
+
+(* the checker evaluated on the implementation's observations accepts every trace of this model *)
+Theorem C11_reload_checker_accepts_model : forall k,
+  LCheck.lc_obs k = Reload.trace Reload.cfg_now Reload.init (LCheck.lc_ops k) -> LCheck.check_C11r k = true.
+Proof. exact LCheckProofs.agreeing_case_accepted. Qed.
+Print Assumptions C11_reload_checker_accepts_model.
+
+(* a reload that does not persist Initial -> Running leaves the views apart after a crash inside a create *)
+Theorem C11_reload_skip_refuted : exists ls, ~ ReloadProofs.Inv (Reload.run Reload.cfg_skip Reload.init ls).
+Proof. exact ReloadProofs.reload_skip_refuted. Qed.
+Print Assumptions C11_reload_skip_refuted.
